@@ -39,7 +39,7 @@ JUNK = ['$', '?', '@', '!', '~', '^', '&', '|', ';', '`', '=', ':', ',', '.', '(
 
 def translate(ctx: Ctx) -> tuple[bool, str]:
 	try:
-		with ctx.timed('translate'):
+		with ctx.timed('translate'), gramlib.budget(120):  # the translator runs the real rule loaders and the real gram tokenizer
 			ctx.generated_tables.extend(gen_rules.generate())
 		return True, ''
 	except Exception as e:  # noqa: BLE001
@@ -874,6 +874,8 @@ STATEMENTS = {
 	'T6_walrus_shape': 'every derivation of expr_move is a bare comp_or or T := V with children [T, V] = CPython NamedExpr(target, value)',
 	'T6_prefix_shape': 'every derivation of unary is a bare primary or ONE unary-minus token + primary; of comp_not a bare comp or ONE not + comp (operand levels as in CPython\'s precedence table)',
 	'T6_complete_counterexample': 'the converse (every derivable sentence is accepted) is false for this engine: under x := "a" ("a")* the text `a a` is rejected (greedy repeat from the right, no backtracking); replayed on the real engine by engine-random',
+	'T7_ordered_choice': 'a successful match of an alternative group is the match of ONE entry, and every entry written before it was tried at the same cursor and failed: first matching alternative, never reconsidered',
+	'T7_greedy': 'a successful ( … )* / ( … )+ stops only where no token is left or where one more repetition of the body fails at the very position the loop stopped: longest repetition, nothing given back',
 	'T5_error_line': 'the summary line number is begin_line+1 of an input token, inside [1, #lines] when that token has a non-negative source map',
 	'T5_error_line_counterexample': 'an EOF-derived cause token (source map -1) prints line (0): the unguarded statement is false',
 }
@@ -894,7 +896,7 @@ def run(ctx: Ctx) -> int:
 	return common.finish(ctx, proof, streams, searches, translate_ok=ok, translate_msg=msg,
 		statements=STATEMENTS,
 		partial={
-			'proved': 'termination for well-formed rule sets incl. both shipped sets, all-or-error, yield/order of leaves, soundness against the declarative reading of any rule set (every returned tree is a derivation of the whole input: T6), flat chains of ladder rules and their grouping, error-line range under the source-map guard',
+			'proved': 'termination for well-formed rule sets incl. both shipped sets, all-or-error, yield/order of leaves, soundness against the declarative reading of any rule set (every returned tree is a derivation of the whole input: T6) and the selection rule among derivations (first alternative, longest repetition: T7), flat chains of ladder rules and their grouping, error-line range under the source-map guard',
 			'correspondence_only': 'the Lean matcher equals SyntaxParser on py_rules()/random rule sets; regexp terminals enter as a classification table evaluated by the real re',
 			'search_only': 'agreement with CPython ast (ordered choice never prefers a wrong alternative on py_gram.lark; group_partial covers the binary ladders, T6_*_shape the node shapes of conditional / walrus / not / unary minus; WHICH derivation ordered choice selects where the grammar is ambiguous, lambda, attribute/call/index chains, statements, and that the engine ACCEPTS every such sentence are search-only), acceptance of every derivable sentence (the general converse of T6 is false: T6_complete_counterexample)',
 		},
